@@ -1,4 +1,8 @@
 import StorageModel.Query.BoltProofs
+import StorageModel.Query.Providers
+import StorageModel.Query.Resolve
+import StorageModel.Query.Llrb
+import StorageModel.Query.FloatOrder
 import StorageModel.Generated.PagingFacts
 /-
   C02 — Sort order, skip, limit and total count are exact.
@@ -20,7 +24,7 @@ import StorageModel.Generated.PagingFacts
 
   Hypotheses that appear below, all explicit:
     * `BucketOrdered rows`      the entities bucket yields ids in ascending byte order (bbolt)
-    * `NoNaNKeys sort r`        no float64 sort key is NaN (Go's `<` is not an order on NaN)
+      (no hypothesis on the values: since 1532996 the float64 comparator orders NaN before every number)
     * `Paging.InRange`          skip and limit are int64 values
     * `rows.length ≤ maxI64`    fewer than 2^63 rows (the counters are int64)
 -/
@@ -32,14 +36,20 @@ open StorageModel StorageModel.Query
     strict `>`). -/
 theorem paging_facts_expected : Generated.boltzPaging = expectedPaging := by decide
 
+/-- Obligation on regenerated data: the branch chain of `float64SymbolComparator.Compare`
+    (boltz/query_sort.go) is the one `cmpFloatVal` models — nil tests, the NaN branch of 1532996
+    (NaN before every number, NaNs tie), `<`, `>`. -/
+theorem float_comparator_facts_expected : Generated.boltzFloatCmp = expectedFloatCmp := by decide
+
 /-- **comparator_strict_total.**  The comparator built for any list of sort fields (per-type
     comparison, nulls first, direction flip, trailing `id asc`) is a strict total order on any set
-    of rows with distinct ids and no NaN sort key. -/
+    of rows with distinct ids — whatever their values: a NaN float64 key sorts before every number
+    (after null) and ties only with NaN. -/
 theorem comparator_strict_total {schema : Schema} {sort : List SortField} {c : Cmp Row} {rows : List Row}
     (hid : HasIdSymbol schema) (hc : newRowComparator schema sort = .ok c)
-    (hnan : ∀ r ∈ rows, NoNaNKeys sort r) (hd : DistinctIds rows) :
+    (hd : DistinctIds rows) :
     StrictTotalOn (fun r => r ∈ rows) c :=
-  newRowComparator_strict hid hc hnan hd
+  newRowComparator_strict hid hc hd
 
 /-- **the requested order, in closed form.**  The row comparator is: one symbol comparator per
     requested sort field, in the order requested and in the requested direction, then `id`
@@ -94,6 +104,87 @@ theorem nulls_first_ascending (ty : SymType) (name : String) (a b : Row)
     simp only [symCmp, dir, ha, if_true, Bool.false_eq_true, if_false]
     exact key _ _ hb
 
+/-! ### sort keys whose stored type differs from the symbol type (`FieldTo*` coercions)
+
+The typed bucket admits any stored type under any key; a symbol of type T reads the field through
+`FieldToT`.  `comparator_strict_total`, `sorting_scan_exact`, `query_ids_exact` above quantify over
+arbitrary rows, hence over every (symbol type, stored type) pair; the theorems below say what the
+key is in each case. -/
+
+/-- **the coercion matrix**: what a symbol of each sortable type reads from each stored type.
+    bool / datetime symbols read only their own type; an int64 symbol widens int32; a float64 symbol
+    converts ints with `float64(int64)`; a string symbol formats everything; all other pairs are null. -/
+theorem coerced_keys :
+    (∀ v, fieldToBool v = match v with | .bool b => some b | _ => none) ∧
+    (∀ v, fieldToDatetime v = match v with | .time t => some t | _ => none) ∧
+    (∀ v, fieldToInt64 v = match v with | .int32 i => some i | .int64 i => some i | _ => none) ∧
+    (∀ v, fieldToFloat64 v = match v with
+      | .float64 b _ => some b | .int32 i => some (intToF64Bits i) | .int64 i => some (intToF64Bits i) | _ => none) ∧
+    (∀ v, fieldToString v = match v with
+      | .string s => some s | .bool b => some (boolText b) | .int32 i => some (intText i) | .int64 i => some (intText i)
+      | .float64 _ text => some text | .time t => timeText t | .nil => none) := by
+  refine ⟨?_, ?_, ?_, ?_, ?_⟩ <;> intro v <;> cases v <;> rfl
+
+/-- an int-stored field read through a float64 symbol is never NaN … -/
+theorem int_float_key_not_nan (v : Int) : fIsNaN (intToF64Bits v) = false := intToF64Bits_not_nan v
+
+/-- **the float64 comparator is a total preorder on ALL float64 values**: comparison of the integer
+    keys `fKey` (NaN ↦ below everything, otherwise the monotone image of the bit pattern; −0 = +0) -/
+theorem float_comparator_total (a b : Nat) : cmpFloatVal a b = cmpInt (fKey a) (fKey b) := cmpFloatVal_eq_key a b
+
+/-- NaN sorts before every number and ties with NaN only -/
+theorem nan_sorts_first (a b : Nat) (ha : fIsNaN a = true) :
+    cmpFloatVal a b = (if fIsNaN b then .eq else .lt) ∧ cmpFloatVal b a = (if fIsNaN b then .eq else .gt) := by
+  cases hb : fIsNaN b <;> simp [cmpFloatVal, cmpFloatValWith, ha, hb]
+
+/-- the comparator BEFORE 1532996 (`cmpFloatValWith false`: no NaN branch, `<` and `>` both false on NaN) tied NaN
+    with every number; with the id tie-break the rows a: 2.0, b: NaN, c: 1.0 then form a cycle a < b < c < a —
+    no order at all, which is why the theorems used to carry the hypothesis `NoNaNKeys` -/
+example :
+    let c : Cmp (Bytes × Nat) := fun x y => match cmpFloatValWith false x.2 y.2 with | .eq => cmpBytes x.1 y.1 | o => o
+    c ([97], 0x4000000000000000) ([98], 0x7ff8000000000001) = .lt ∧
+    c ([98], 0x7ff8000000000001) ([99], 0x3ff0000000000000) = .lt ∧
+    c ([99], 0x3ff0000000000000) ([97], 0x4000000000000000) = .lt := by decide
+/-- with the NaN branch: b (NaN) < c (1.0) < a (2.0), transitively -/
+example : cmpFloatVal 0x7ff8000000000001 0x3ff0000000000000 = .lt ∧ cmpFloatVal 0x3ff0000000000000 0x4000000000000000 = .lt ∧
+    cmpFloatVal 0x7ff8000000000001 0x4000000000000000 = .lt ∧ cmpFloatVal 0x7ff8000000000001 0xfff8000000000000 = .eq := by decide
+
+/-- **the order a float64 symbol gives int-stored fields**: integers `a ≤ b` never come out inverted —
+    `float64(int64)` is monotone; integers rounding to the same float64 tie (→ next field / id) -/
+theorem int_float_key_monotone {a b : Int} (h : a ≤ b) :
+    cmpFloatVal (intToF64Bits a) (intToF64Bits b) ≠ .gt := by
+  rw [cmpFloatVal_eq (intToF64Bits_not_nan a) (intToF64Bits_not_nan b)]
+  have := intToF64Bits_mono h
+  unfold cmpInt
+  split
+  · decide
+  · split
+    · omega
+    · decide
+
+/-- ids and count of an answer (for the concrete examples) -/
+def answer : Except SortErr (List Row × Int) → Option (List Bytes × Int)
+  | .ok r => some (r.1.map (·.id), r.2)
+  | .error _ => none
+
+def coSchema : Schema := [("id", ⟨.string, false⟩), ("f", ⟨.float64, false⟩), ("s", ⟨.string, false⟩)]
+/-- ints under a float64 symbol: 2^53 + 1 and 2^53 convert to the same float64 (tie → id order), 7 is smaller;
+    under a string symbol the decimal texts compare bytewise: "10" < "7" < "9007…" -/
+def coRows : List Row :=
+  [⟨[97], [("f", .int64 9007199254740993), ("s", .int64 7)]⟩,
+   ⟨[98], [("f", .int64 9007199254740992), ("s", .int32 10)]⟩,
+   ⟨[99], [("f", .int32 7), ("s", .time 1614834367000000001)]⟩,
+   ⟨[100], [("f", .string [55]), ("s", .float64 4602678819172646912 [48, 46, 53])]⟩]
+def coStore : BoltStore := { schema := coSchema, bucket := some coRows }
+
+/-- a string stored under the float64 symbol is null (first); then 7.0; then the two ints that
+    round to 2^53, in id order -/
+example : answer (queryIdsC expectedPaging coStore ⟨.tt, [⟨"f", true⟩], ⟨none, none⟩⟩) = some ([[100], [99], [97], [98]], 4) := by
+  decide
+/-- "0.5" < "10" < "2021-03-04T05:06:07.000000001Z" < "7" -/
+example : answer (queryIdsC expectedPaging coStore ⟨.tt, [⟨"s", true⟩], ⟨none, none⟩⟩) = some ([[100], [98], [99], [97]], 4) := by
+  decide
+
 /-- a strictly sorted permutation of the matching rows is what the specification calls their
     sort: `page` does not depend on the sorting algorithm written in Query/Sorted.lean -/
 theorem sort_characterised {P : Row → Prop} {c : Cmp Row} (hc : StrictTotalOn P c) {xs l : List Row}
@@ -131,12 +222,12 @@ theorem set_paging_idempotent (q : Paging) :
 theorem index_scan_exact (st : BoltStore) (rows : List Row) (q : Query) (fwd : Bool) (c : Cmp Row)
     (hb : st.bucket = some rows) (hord : BucketOrdered rows) (hid : HasIdSymbol st.schema)
     (hs : newScanner q.sort = .index fwd) (hc : newRowComparator st.schema q.sort = .ok c)
-    (hnan : ∀ r ∈ rows, NoNaNKeys q.sort r) (hq : q.paging.InRange) (hlen : (rows.length : Int) ≤ maxI64) :
+    (hq : q.paging.InRange) (hlen : (rows.length : Int) ≤ maxI64) :
     queryIdsC Generated.boltzPaging st q =
       .ok (page c q.paging.skip q.paging.limit (matching (st.env q.filter) rows),
            total (matching (st.env q.filter) rows)) := by
   rw [paging_facts_expected]
-  have hstrict := newRowComparator_strict hid hc hnan hord.distinct
+  have hstrict := newRowComparator_strict hid hc hord.distinct
   have hmlen : ∀ l : List Row, l.Perm rows → ((matching (st.env q.filter) l).length : Int) ≤ maxI64 := by
     intro l hl
     have : (matching (st.env q.filter) l).length ≤ l.length := List.length_filter_le ..
@@ -157,12 +248,12 @@ theorem index_scan_exact (st : BoltStore) (rows : List Row) (q : Query) (fwd : B
 theorem sorting_scan_exact (st : BoltStore) (rows : List Row) (q : Query) (c : Cmp Row)
     (hb : st.bucket = some rows) (hord : BucketOrdered rows) (hid : HasIdSymbol st.schema)
     (hs : newScanner q.sort = .sorting) (hc : newRowComparator st.schema q.sort = .ok c)
-    (hnan : ∀ r ∈ rows, NoNaNKeys q.sort r) (hq : q.paging.InRange) (hlen : (rows.length : Int) ≤ maxI64) :
+    (hq : q.paging.InRange) (hlen : (rows.length : Int) ≤ maxI64) :
     queryIdsC Generated.boltzPaging st q =
       .ok (page c q.paging.skip q.paging.limit (matching (st.env q.filter) rows),
            total (matching (st.env q.filter) rows)) := by
   rw [paging_facts_expected]
-  have hstrict := newRowComparator_strict hid hc hnan hord.distinct
+  have hstrict := newRowComparator_strict hid hc hord.distinct
   have hmlen : ((matching (st.env q.filter) rows).length : Int) ≤ maxI64 := by
     have : (matching (st.env q.filter) rows).length ≤ rows.length := List.length_filter_le ..
     omega
@@ -174,7 +265,7 @@ theorem sorting_scan_exact (st : BoltStore) (rows : List Row) (q : Query) (c : C
 theorem query_ids_exact (st : BoltStore) (rows : List Row) (q : Query) (c : Cmp Row)
     (hb : st.bucket = some rows) (hord : BucketOrdered rows) (hid : HasIdSymbol st.schema)
     (hc : newRowComparator st.schema q.sort = .ok c)
-    (hnan : ∀ r ∈ rows, NoNaNKeys q.sort r) (hq : q.paging.InRange) (hlen : (rows.length : Int) ≤ maxI64) :
+    (hq : q.paging.InRange) (hlen : (rows.length : Int) ≤ maxI64) :
     queryIdsC Generated.boltzPaging st q =
       .ok (page c q.paging.skip q.paging.limit (rows.filter fun r => !st.childSkip r && sat r q.filter),
            total (rows.filter fun r => !st.childSkip r && sat r q.filter)) := by
@@ -183,8 +274,8 @@ theorem query_ids_exact (st : BoltStore) (rows : List Row) (q : Query) (c : Cmp 
     congr 1
   rw [← hm]
   cases hs : newScanner q.sort with
-  | index fwd => exact index_scan_exact st rows q fwd c hb hord hid hs hc hnan hq hlen
-  | sorting => exact sorting_scan_exact st rows q c hb hord hid hs hc hnan hq hlen
+  | index fwd => exact index_scan_exact st rows q fwd c hb hord hid hs hc hq hlen
+  | sorting => exact sorting_scan_exact st rows q c hb hord hid hs hc hq hlen
 
 /-- **cursor_provider_exact.**  `QueryWithCursorC` with a cursor provider that yields a sub-sequence
     of the bucket in key order (forward) or reverse key order — as the bucket's own `OpenCursor`,
@@ -193,11 +284,11 @@ theorem query_ids_exact (st : BoltStore) (rows : List Row) (q : Query) (c : Cmp 
 theorem cursor_provider_exact (st : BoltStore) (sub : List Row) (q : Query) (c : Cmp Row)
     (hord : BucketOrdered sub) (hid : HasIdSymbol st.schema)
     (hc : newRowComparator st.schema q.sort = .ok c)
-    (hnan : ∀ r ∈ sub, NoNaNKeys q.sort r) (hq : q.paging.InRange) (hlen : (sub.length : Int) ≤ maxI64) :
+    (hq : q.paging.InRange) (hlen : (sub.length : Int) ≤ maxI64) :
     queryWithCursorC Generated.boltzPaging st q (fun fwd => some (bucketCursor sub fwd)) =
       .ok (page c q.paging.skip q.paging.limit (sub.filter fun r => !st.childSkip r && sat r q.filter),
            total (sub.filter fun r => !st.childSkip r && sat r q.filter)) :=
-  query_ids_exact { st with bucket := some sub } sub q c rfl hord hid hc hnan hq hlen
+  query_ids_exact { st with bucket := some sub } sub q c rfl hord hid hc hq hlen
 
 /-- the listener's reading of `skip N` / `limit N` / `limit none` pages exactly as the text asks:
     `limit none` (pushed as -1) is "no limit" -/
@@ -232,13 +323,13 @@ theorem paging_tokens_exact (skip : Option NumTok) (limit : Option LimitTok) (p 
 theorem strategy_independent (st : BoltStore) (rows : List Row) (q : Query) (fwd : Bool) (c : Cmp Row)
     (hord : BucketOrdered rows) (hid : HasIdSymbol st.schema)
     (hs : newScanner q.sort = .index fwd) (hc : newRowComparator st.schema q.sort = .ok c)
-    (hnan : ∀ r ∈ rows, NoNaNKeys q.sort r) (hq : q.paging.InRange) (hlen : (rows.length : Int) ≤ maxI64) :
+    (hq : q.paging.InRange) (hlen : (rows.length : Int) ≤ maxI64) :
     sortScan Generated.boltzPaging c (st.env q.filter) q.paging (some rows) =
       idxScan Generated.boltzPaging (st.env q.filter) q.paging (some (bucketCursor rows fwd)) := by
-  have h1 := index_scan_exact { st with bucket := some rows } rows q fwd c rfl hord hid hs hc hnan hq hlen
+  have h1 := index_scan_exact { st with bucket := some rows } rows q fwd c rfl hord hid hs hc hq hlen
   simp only [queryIdsC, scanCursor, hs] at h1
   have h1' := Except.ok.inj h1
-  have hstrict := newRowComparator_strict hid hc hnan hord.distinct
+  have hstrict := newRowComparator_strict hid hc hord.distinct
   have hmlen : ((matching (st.env q.filter) rows).length : Int) ≤ maxI64 := by
     have : (matching (st.env q.filter) rows).length ≤ rows.length := List.length_filter_le ..
     omega
@@ -250,12 +341,12 @@ theorem strategy_independent (st : BoltStore) (rows : List Row) (q : Query) (fwd
 theorem count_exact (st : BoltStore) (rows : List Row) (q : Query) (p' : Paging) (c : Cmp Row)
     (hb : st.bucket = some rows) (hord : BucketOrdered rows) (hid : HasIdSymbol st.schema)
     (hc : newRowComparator st.schema q.sort = .ok c)
-    (hnan : ∀ r ∈ rows, NoNaNKeys q.sort r) (hq : q.paging.InRange) (hq' : p'.InRange)
+    (hq : q.paging.InRange) (hq' : p'.InRange)
     (hlen : (rows.length : Int) ≤ maxI64) :
     (queryIdsC Generated.boltzPaging st q).map (·.2) =
       (queryIdsC Generated.boltzPaging st { q with paging := p' }).map (·.2) := by
-  rw [query_ids_exact st rows q c hb hord hid hc hnan hq hlen,
-    query_ids_exact st rows { q with paging := p' } c hb hord hid hc hnan hq' hlen]
+  rw [query_ids_exact st rows q c hb hord hid hc hq hlen,
+    query_ids_exact st rows { q with paging := p' } c hb hord hid hc hq' hlen]
   rfl
 
 /-- the count of the sorting scan is the number of matching rows for *any* comparator — also when
@@ -274,8 +365,7 @@ theorem cursor_iter_exact (st : BoltStore) (rows : List Row) (q : Query) (c : Cm
     (hc : newRowComparator st.schema [] = .ok c) (hq : q.paging.InRange) (hlen : (rows.length : Int) ≤ maxI64) :
     iterateIds Generated.boltzPaging st q =
       page c q.paging.skip q.paging.limit (matching (st.env q.filter) rows) := by
-  have h := index_scan_exact st rows { q with sort := [] } true c hb hord hid rfl hc
-    (fun _ _ _ hf => nomatch hf) hq hlen
+  have h := index_scan_exact st rows { q with sort := [] } true c hb hord hid rfl hc hq hlen
   rw [paging_facts_expected] at h ⊢
   simp only [queryIdsC, hb, scanCursor, newScanner, sortMax, List.length_nil, Nat.not_lt_zero, if_false,
     bucketCursor, if_true] at h
@@ -299,27 +389,15 @@ theorem cursor_seek_exact (env : ScanEnv Row) (v : Bytes) (c : PagedCursor Row)
 
 def exSchema : Schema := [("id", ⟨.string, false⟩), ("s", ⟨.string, false⟩), ("f", ⟨.float64, false⟩)]
 def exRows : List Row :=
-  [⟨[97], [("s", .string [120]), ("f", .float64 0)]⟩,
-   ⟨[98], [("s", .nil), ("f", .float64 4607182418800017408)]⟩,
+  [⟨[97], [("s", .string [120]), ("f", .float64 0 [48])]⟩,
+   ⟨[98], [("s", .nil), ("f", .float64 4607182418800017408 [49])]⟩,
    ⟨[99], [("s", .string [120]), ("f", .nil)]⟩]
 def exStore : BoltStore := { schema := exSchema, bucket := some exRows }
 def exQuery : Query := ⟨.tt, [⟨"s", true⟩], ⟨some 1, none⟩⟩
-/-- ids and count of an answer (for the concrete examples) -/
-def answer : Except SortErr (List Row × Int) → Option (List Bytes × Int)
-  | .ok r => some (r.1.map (·.id), r.2)
-  | .error _ => none
-
 /-- the hypotheses are satisfiable by a store with ties and nulls -/
-example : BucketOrdered exRows ∧ HasIdSymbol exSchema ∧ (∀ r ∈ exRows, NoNaNKeys exQuery.sort r) ∧
-    exQuery.paging.InRange ∧ newScanner exQuery.sort = .sorting := by
-  refine ⟨by unfold BucketOrdered; decide, by unfold HasIdSymbol; decide, ?_,
+example : BucketOrdered exRows ∧ HasIdSymbol exSchema ∧ exQuery.paging.InRange ∧ newScanner exQuery.sort = .sorting := by
+  refine ⟨by unfold BucketOrdered; decide, by unfold HasIdSymbol; decide,
     ⟨by intro s h; cases h; unfold InI64; decide, by intro l h; cases h⟩, by decide⟩
-  intro r hr f hf
-  simp only [exQuery, List.mem_singleton] at hf
-  subst hf
-  intro bits hb
-  simp only [exRows, List.mem_cons, List.mem_nil_iff, or_false] at hr
-  rcases hr with rfl | rfl | rfl <;> simp [evalSym, Row.get, List.lookup] at hb
 
 /-- `sort by s skip 1` (no limit): null first, then the tie on "x" broken by id; one row dropped -/
 example : answer (queryIdsC expectedPaging exStore exQuery) = some ([[97], [99]], 3) := by decide
@@ -333,6 +411,214 @@ theorem pinned_arithmetic_violates :
 example : answer (queryIdsC pinnedPaging exStore { exQuery with paging := ⟨some (-2), some 2⟩ }) = some ([], 3) := by decide
 example : answer (queryIdsC expectedPaging exStore { exQuery with paging := ⟨some (-2), some 2⟩ }) = some ([[98], [97]], 3) := by
   decide
+
+/-! ### which sort fields are supported: map elements, linked symbols, child-store symbols
+
+`ast.Parse` resolves a sort field with `GetSymbol` (registered symbols, map elements `tags.k`,
+composite symbols through linked stores `owner.label`); `newRowComparator` looks only into
+`store.symbols`.  Supported are therefore exactly the registered non-set symbols of the five
+sortable types — among them the fk symbol itself (`owner`: the linked id, a string), the parent's
+symbols granted to a child store and the child store's own symbols; `comparator_strict_total`,
+`sorting_scan_exact`, `query_ids_exact` cover those (any schema).  Everything else is refused: -/
+
+/-- a sort list is accepted by `newRowComparator` iff every field — and the trailing `id` — is a
+    registered, non-set symbol of a sortable type -/
+theorem sort_accepted_iff (schema : Schema) (sort : List SortField) :
+    (∃ c, newRowComparator schema sort = .ok c) ↔ ∀ f ∈ sort ++ [⟨"id", true⟩], fieldErr schema f = none := by
+  rw [← resolveSort_ok_iff]
+  unfold newRowComparator
+  cases resolveSort schema (sort ++ [⟨"id", true⟩]) with
+  | error e => simp
+  | ok cs => simp
+
+/-- **exact error**: the error is that of the first refused field in the order written ("no such
+    sort field" for a name that is not registered, "invalid sort field" for a set symbol,
+    "unsupported sort field type" for a registered symbol of another type) -/
+theorem sort_field_error_exact (schema : Schema) (sort : List SortField) (e : SortErr) :
+    newRowComparator schema sort = .error e ↔
+      ∃ pre f post, sort ++ [⟨"id", true⟩] = pre ++ f :: post ∧ (∀ g ∈ pre, fieldErr schema g = none) ∧
+        fieldErr schema f = some e :=
+  newRowComparator_error_iff schema sort e
+
+/-- **map elements and linked symbols** (`tags.k`, `owner.label`, `owner.id`): a dotted name is never a
+    registered symbol, so the comparator refuses it with "no such sort field" although the parser
+    resolved it -/
+theorem dotted_sort_field_refused {schema : Schema} (hp : PlainNames schema) (f : SortField)
+    (hd : (splitDots f.name).length ≠ 1) : fieldErr schema f = some .noSuchField :=
+  dotted_field_unsupported hp f hd
+
+/-- the sorting scanner reports that error for every dataset, filter, skip and limit (once the
+    entities bucket exists; without it `Scan` answers `(nil, 0, nil)` before looking at the sort) -/
+theorem sorting_scan_error_exact (st : BoltStore) (rows : List Row) (q : Query) (e : SortErr)
+    (hb : st.bucket = some rows) (hs : newScanner q.sort = .sorting) (he : newRowComparator st.schema q.sort = .error e) :
+    queryIdsC Generated.boltzPaging st q = .error e ∧
+    queryIdsC Generated.boltzPaging { st with bucket := none } q = .ok ([], 0) := by
+  simp [queryIdsC, hb, scanCursor, hs, he]
+
+/-- **`id` first**: the index scanner serves the query and never builds a comparator — any sort
+    fields after `id` (refused ones included) are irrelevant and the answer is the page in id order -/
+theorem id_first_exact (st : BoltStore) (rows : List Row) (q : Query) (asc : Bool) (rest : List SortField) (c : Cmp Row)
+    (hsort : q.sort = ⟨"id", asc⟩ :: rest)
+    (hb : st.bucket = some rows) (hord : BucketOrdered rows) (hid : HasIdSymbol st.schema)
+    (hc : newRowComparator st.schema [⟨"id", asc⟩] = .ok c) (hq : q.paging.InRange) (hlen : (rows.length : Int) ≤ maxI64) :
+    queryIdsC Generated.boltzPaging st q =
+      .ok (page c q.paging.skip q.paging.limit (rows.filter fun r => !st.childSkip r && sat r q.filter),
+           total (rows.filter fun r => !st.childSkip r && sat r q.filter)) := by
+  have hs : newScanner q.sort = .index asc := by
+    rw [hsort]
+    have hhead : (if (⟨"id", asc⟩ :: rest : List SortField).length > sortMax then (⟨"id", asc⟩ :: rest : List SortField).take sortMax
+        else ⟨"id", asc⟩ :: rest) = ⟨"id", asc⟩ :: (if (⟨"id", asc⟩ :: rest : List SortField).length > sortMax then rest.take (sortMax - 1) else rest) := by
+      split <;> simp [sortMax]
+    simp only [newScanner, hhead]
+    cases asc <;> simp
+  have hs' : newScanner [⟨"id", asc⟩] = .index asc := by cases asc <;> simp [newScanner, sortMax]
+  rw [index_scanner_needs_no_comparator _ st q asc hs [⟨"id", asc⟩] hs']
+  exact query_ids_exact st rows { q with sort := [⟨"id", asc⟩] } c hb hord hid hc hq hlen
+
+/-- the harness stores' tables: `things` with the map symbol `tags` and the fk `owner` → `owners` -/
+def exStores : Stores :=
+  [("things", { symbols := [("id", ⟨.string, false⟩), ("s", ⟨.string, false⟩), ("owner", ⟨.string, false⟩), ("roles", ⟨.string, true⟩)],
+                maps := [("tags", .other)], links := [("owner", "owners")] }),
+   ("owners", { symbols := [("id", ⟨.string, false⟩), ("label", ⟨.string, false⟩), ("things", ⟨.string, true⟩)],
+                maps := [], links := [("things", "things")] })]
+def exThings : Schema := [("id", ⟨.string, false⟩), ("s", ⟨.string, false⟩), ("owner", ⟨.string, false⟩), ("roles", ⟨.string, true⟩)]
+
+/-- the parser resolves `tags.k`, `owner.label`, `owner.id`; `owner.things.s` resolves to a set -/
+example : sortFieldParses exStores "things" ⟨"tags.k", true⟩ = true ∧ sortFieldParses exStores "things" ⟨"owner.label", true⟩ = true ∧
+    sortFieldParses exStores "things" ⟨"owner.id", false⟩ = true ∧ sortFieldParses exStores "things" ⟨"owner.things.s", true⟩ = false ∧
+    sortFieldParses exStores "things" ⟨"tags", true⟩ = false := by decide
+/-- … and the comparator refuses them, while the fk symbol itself sorts (by the linked id) -/
+example : fieldErr exThings ⟨"tags.k", true⟩ = some .noSuchField ∧ fieldErr exThings ⟨"owner.label", true⟩ = some .noSuchField ∧
+    fieldErr exThings ⟨"owner", true⟩ = none ∧ fieldErr exThings ⟨"roles", true⟩ = some .invalidSetField := by decide
+example : PlainNames exThings := by
+  intro p hp
+  simp only [exThings, List.mem_cons, List.mem_nil_iff, or_false] at hp
+  rcases hp with rfl | rfl | rfl | rfl <;> decide
+
+/-! ### the llrb tree and its sorted-list view
+
+`Query/Llrb.lean` ports biogo's `Tree.Insert` / `DeleteMax` / `Do` node by node; the scanner theorems
+above use the in-order walk (`tins`, `dropLast`).  For `Insert` the two are proved equal; for
+`DeleteMax` (= `dropLast` on a balanced tree) the drivers compare both models on every generated case. -/
+
+/-- **`llrb.Tree.Insert` is sorted-list insertion with replace-on-equal**, whenever the row comparator
+    is a strict total order on the rows involved (`comparator_strict_total`) — whatever the colours
+    and the shape of the tree -/
+theorem llrb_insert_is_sorted_insert {P : Row → Prop} {c : Cmp Row} (hc : StrictTotalOn P c) (e : Row) (he : P e)
+    (t : LL Row) (hP : ∀ y ∈ t.inorder, P y) (hs : Sorted c t.inorder) :
+    (LL.Insert c e t).inorder = tins c e t.inorder :=
+  LL.Insert_inorder hc e he t hP hs
+
+/-! ### every cursor provider the library offers -/
+
+/-- **cursor_provider_exact, for every provider kind** (`TypedBucket.OpenCursor`, `setIndex.OpenValueCursor`,
+    `ast.OpenEmptyCursor`, the filtered cursor of `IteratorMatchingAllOf`, the tree set of
+    `IteratorMatchingAnyOf`, `GetRelatedEntitiesCursor` over an fk back-reference list, a nil cursor):
+    `QueryWithCursorC` answers with the page — in the requested sort order, whichever scanner serves
+    it — and the total of the matching entities among those the provider selects. -/
+theorem cursor_provider_exact_all (st : BoltStore) (rows : List Row) (ix : Indexes) (p : Provider) (q : Query) (c : Cmp Row)
+    (hord : BucketOrdered rows) (hm : IndexesMirror ix rows) (hid : HasIdSymbol st.schema)
+    (hc : newRowComparator st.schema q.sort = .ok c)
+    (hq : q.paging.InRange) (hlen : (rows.length : Int) ≤ maxI64) :
+    queryWithCursorC Generated.boltzPaging st q (p.cursor ix rows) =
+      .ok (page c q.paging.skip q.paging.limit
+             ((rows.filter (p.selects ix)).filter fun r => !st.childSkip r && sat r q.filter),
+           total ((rows.filter (p.selects ix)).filter fun r => !st.childSkip r && sat r q.filter)) := by
+  by_cases hp : p = .nilCursor
+  · subst hp
+    have hnil : rows.filter (Provider.selects ix .nilCursor) = [] :=
+      List.filter_eq_nil_iff.2 (fun _ _ => by simp [Provider.selects])
+    have hcur : Provider.cursor ix rows .nilCursor = fun _ => none := rfl
+    simp only [hnil, List.filter_nil, queryWithCursorC, scanCursor, hcur, hc]
+    cases newScanner q.sort <;> simp [idxScan, sortScan, page, sort, total]
+    all_goals (cases limitRows q.paging.limit <;> simp)
+  · have hsub : BucketOrdered (rows.filter (p.selects ix)) := List.Pairwise.sublist List.filter_sublist hord
+    have hcur : p.cursor ix rows = fun fwd => some (bucketCursor (rows.filter (p.selects ix)) fwd) := by
+      funext fwd; exact provider_cursor_eq hord hm p hp fwd
+    rw [hcur]
+    refine cursor_provider_exact st _ q c hsub hid hc hq ?_
+    have : (rows.filter (p.selects ix)).length ≤ rows.length := List.length_filter_le ..
+    omega
+
+/-- `IteratorMatchingAllOf(index, values)`: the entities that hold every value (none at all for an
+    empty value list), duplicates in `values` being irrelevant -/
+theorem iterator_all_of_exact (st : BoltStore) (rows : List Row) (ix : Indexes) (vs : List Bytes) (q : Query) (c : Cmp Row)
+    (hord : BucketOrdered rows) (hm : IndexesMirror ix rows) (hid : HasIdSymbol st.schema)
+    (hc : newRowComparator st.schema q.sort = .ok c)
+    (hq : q.paging.InRange) (hlen : (rows.length : Int) ≤ maxI64) :
+    queryWithCursorC Generated.boltzPaging st q ((iteratorMatchingAllOf vs).cursor ix rows) =
+      .ok (page c q.paging.skip q.paging.limit
+             ((rows.filter fun r => !vs.isEmpty && vs.all (hasValue ix r.id)).filter fun r => !st.childSkip r && sat r q.filter),
+           total ((rows.filter fun r => !vs.isEmpty && vs.all (hasValue ix r.id)).filter fun r => !st.childSkip r && sat r q.filter)) := by
+  rw [cursor_provider_exact_all st rows ix _ q c hord hm hid hc hq hlen]
+  have : rows.filter ((iteratorMatchingAllOf vs).selects ix) = rows.filter fun r => !vs.isEmpty && vs.all (hasValue ix r.id) :=
+    List.filter_congr (fun r _ => iteratorMatchingAllOf_selects ix vs r)
+  rw [this]
+
+/-- `IteratorMatchingAnyOf(index, values)`: the entities that hold at least one of the values, each once -/
+theorem iterator_any_of_exact (st : BoltStore) (rows : List Row) (ix : Indexes) (vs : List Bytes) (q : Query) (c : Cmp Row)
+    (hord : BucketOrdered rows) (hm : IndexesMirror ix rows) (hid : HasIdSymbol st.schema)
+    (hc : newRowComparator st.schema q.sort = .ok c)
+    (hq : q.paging.InRange) (hlen : (rows.length : Int) ≤ maxI64) :
+    queryWithCursorC Generated.boltzPaging st q ((iteratorMatchingAnyOf vs).cursor ix rows) =
+      .ok (page c q.paging.skip q.paging.limit
+             ((rows.filter fun r => vs.any (hasValue ix r.id)).filter fun r => !st.childSkip r && sat r q.filter),
+           total ((rows.filter fun r => vs.any (hasValue ix r.id)).filter fun r => !st.childSkip r && sat r q.filter)) := by
+  rw [cursor_provider_exact_all st rows ix _ q c hord hm hid hc hq hlen]
+  have : rows.filter ((iteratorMatchingAnyOf vs).selects ix) = rows.filter fun r => vs.any (hasValue ix r.id) :=
+    List.filter_congr (fun r _ => iteratorMatchingAnyOf_selects ix vs r)
+  rw [this]
+
+/-- **cursor_scanner_exact** (`newCursorScanner`, the cursor behind `OpenSetCursorForQuery`): drained,
+    it yields the page — in id order, a cursor cannot sort — of the members of the set cursor that
+    satisfy the sub-query's predicate in the linked store, honouring the sub-query's skip and limit. -/
+theorem cursor_scanner_exact (linked : BoltStore) (members : List Row) (q : Query) (c : Cmp Row)
+    (hord : BucketOrdered members) (hid : HasIdSymbol linked.schema)
+    (hc : newRowComparator linked.schema [] = .ok c) (hq : q.paging.InRange) (hlen : (members.length : Int) ≤ maxI64) :
+    subQueryCursor Generated.boltzPaging linked q members =
+      page c q.paging.skip q.paging.limit (members.filter fun r => !linked.childSkip r && sat r q.filter) := by
+  have h := cursor_iter_exact { linked with bucket := some members } members q c rfl hord hid hc hq hlen
+  simp only [iterateIds] at h
+  have hm : matching (BoltStore.env { linked with bucket := some members } q.filter) members =
+      members.filter fun r => !linked.childSkip r && sat r q.filter := by
+    simp only [matching, BoltStore.env, bolt_eval_sat]
+    congr 1
+  rw [← hm, ← h]
+  rfl
+
+def pvRows : List Row := [⟨[97], []⟩, ⟨[98], []⟩, ⟨[99], []⟩, ⟨[100], []⟩]
+/-- a: r w, b: w, c: r, d: — ; owner o holds back-references to b and d -/
+def pvIx : Indexes :=
+  { valuesOf := fun id => if id = [97] then [[114], [119]] else if id = [98] then [[119]] else if id = [99] then [[114]] else [],
+    index := [([114], [[97], [99]]), ([119], [[97], [98]])],
+    related := [(([111], "things"), [[98], [100]])] }
+
+example : BucketOrdered pvRows ∧ IndexesMirror pvIx pvRows := by
+  refine ⟨by unfold BucketOrdered; decide, ?_, ?_⟩
+  · intro v
+    by_cases h1 : v = [114]
+    · subst h1; decide
+    · by_cases h2 : v = [119]
+      · subst h2; decide
+      · have e1 : (v == [114]) = false := by simpa using h1
+        have e2 : (v == [119]) = false := by simpa using h2
+        have f1 : hasValue pvIx [97] v = false := by simp [hasValue, pvIx, h1, h2]
+        have f2 : hasValue pvIx [98] v = false := by simp [hasValue, pvIx, h2]
+        have f3 : hasValue pvIx [99] v = false := by simp [hasValue, pvIx, h1]
+        have f4 : hasValue pvIx [100] v = false := by simp [hasValue, pvIx]
+        have hl : pvIx.index.lookup v = none := by simp [pvIx, List.lookup, e1, e2]
+        simp [hl, pvRows, List.filter, f1, f2, f3, f4]
+  · intro k ids hk
+    simp only [pvIx, List.lookup] at hk
+    split at hk
+    · cases hk; exact ⟨by unfold IdLt; decide, by decide⟩
+    · cases hk
+
+example : ((iteratorMatchingAllOf [[114], [119], [114]]).cursor pvIx pvRows true).map (·.map (·.id)) = some [[97]] := by decide
+example : ((iteratorMatchingAnyOf [[119], [114], [119]]).cursor pvIx pvRows false).map (·.map (·.id)) = some [[99], [98], [97]] := by
+  decide
+example : ((iteratorMatchingAllOf []).cursor pvIx pvRows true) = some [] := by decide
+example : ((Provider.related [111] "things").cursor pvIx pvRows false).map (·.map (·.id)) = some [[100], [98]] := by decide
 
 end StorageModel.Properties.C02
 
@@ -357,3 +643,19 @@ end StorageModel.Properties.C02
 #print axioms StorageModel.Properties.C02.cursor_iter_exact
 #print axioms StorageModel.Properties.C02.cursor_seek_exact
 #print axioms StorageModel.Properties.C02.pinned_arithmetic_violates
+#print axioms StorageModel.Properties.C02.coerced_keys
+#print axioms StorageModel.Properties.C02.int_float_key_not_nan
+#print axioms StorageModel.Properties.C02.float_comparator_total
+#print axioms StorageModel.Properties.C02.nan_sorts_first
+#print axioms StorageModel.Properties.C02.float_comparator_facts_expected
+#print axioms StorageModel.Properties.C02.cursor_provider_exact_all
+#print axioms StorageModel.Properties.C02.iterator_all_of_exact
+#print axioms StorageModel.Properties.C02.iterator_any_of_exact
+#print axioms StorageModel.Properties.C02.cursor_scanner_exact
+#print axioms StorageModel.Properties.C02.sort_accepted_iff
+#print axioms StorageModel.Properties.C02.sort_field_error_exact
+#print axioms StorageModel.Properties.C02.dotted_sort_field_refused
+#print axioms StorageModel.Properties.C02.sorting_scan_error_exact
+#print axioms StorageModel.Properties.C02.id_first_exact
+#print axioms StorageModel.Properties.C02.llrb_insert_is_sorted_insert
+#print axioms StorageModel.Properties.C02.int_float_key_monotone
